@@ -53,6 +53,10 @@ def make_peers(tb, rnd, tier):
         add(['curve25519-sha256', 'diffie-hellman-group-exchange-sha256'], ['rsa-sha2-512', 'ssh-ed25519'], ['aes128-ctr'], ['hmac-sha2-256'],
             dict(ed, **rsa(['rsa-sha2-512', 'rsa-sha2-256', 'ssh-rsa'], 3072)), {'diffie-hellman-group-exchange-sha256': bits})
         P[-1]['gex_style'] = 'openssh'
+    # a server that advertises RSA host keys and hangs up when asked for one: nothing was measured for them (the tool keeps a size-0
+    # placeholder); the policy made from it still loads and passes on it
+    add(['curve25519-sha256'], ['rsa-sha2-512', 'rsa-sha2-256', 'ssh-ed25519'], ['aes128-ctr'], ['hmac-sha2-256'],
+        dict(ed, **rsa(['rsa-sha2-512', 'rsa-sha2-256', 'ssh-rsa'], 0)))
     # servers that send SSH_MSG_DEBUG messages in front of their key-exchange replies
     add(['curve25519-sha256', 'diffie-hellman-group-exchange-sha256'], ['rsa-sha2-512', 'ssh-ed25519-cert-v01@openssh.com', 'ssh-ed25519'], ['aes128-ctr'], ['hmac-sha2-256'],
         dict(ed, **dict(rsa(['rsa-sha2-512', 'rsa-sha2-256', 'ssh-rsa'], 3072), **{'ssh-ed25519-cert-v01@openssh.com': {'size': 256, 'catype': 'ssh-rsa', 'casize': 4096}})),
@@ -120,6 +124,8 @@ def perturbations(q, rnd):
     fam = [t for t in ('ssh-rsa', 'rsa-sha2-256', 'rsa-sha2-512') if t in q['hks']]
     if fam and any(t in q['key'] for t in fam):
         for d in (-1024, 1024):
+            if q['hks'][fam[0]]['size'] + d <= 0:
+                continue            # (a key that is withheld cannot get smaller)
             p = copy.deepcopy(q)
             for t in fam:
                 p['hks'][t]['size'] += d
@@ -150,7 +156,7 @@ def perturbations(q, rnd):
 
 
 def server_of(q):
-    hk = {t: rating.hostkey_blob(t, (v['size'], v['catype'], v['casize'])) for t, v in q['hks'].items() if t in q['key'] or True}
+    hk = {t: rating.hostkey_blob(t, (v['size'], v['catype'], v['casize'])) for t, v in q['hks'].items() if v['size'] > 0}      # (size 0: advertised, never presented)
     cfg = peers.ServerCfg(banner=('SSH-2.0-' + q['banner']).encode(), kexinit={k: ([] if q[k] == [''] else q[k]) for k in ('kex', 'key', 'enc', 'mac', 'comp')}, hostkeys=hk)
     if q['dhs']:
         cfg['gex'] = {'per_alg': {a: {'style': q.get('gex_style', 'roundup'), 'moduli': [b]} for a, b in q['dhs'].items()}}
